@@ -299,7 +299,13 @@ def r3_marking_pass(w):
     v = BodyView(w, b)
     # (a) the directive test is `text(comment).contains("@typstyle off")`
     tests = []
-    for bi, t in b.calls():
+    # the marking pass with its boolean helpers expanded (`fn is_off_directive(text: &str) -> bool { text.contains(..) }`)
+    import inline
+    from rules import c05
+    b_t = inline.inline_body(w, b, lambda cb, t_, d: cb.crate is w.core and cb.locals[0]['ty']['s'] == 'bool' and not c05.is_recursive(w, cb) and cb.id not in setter_ids,
+                             desugar=False)
+    v_t = BodyView(w, b_t)
+    for bi, t in b_t.calls():
         p = callee_path(t) or ''
         if p.endswith('<impl str>::contains') and len(t['args']) == 2 and t['args'][1].get('o') == 'const':
             tests.append((bi, t))
@@ -307,8 +313,7 @@ def r3_marking_pass(w):
     lit_ok = [x for x in tests if x[1]['args'][1].get('str') == DIRECTIVE or (x[1]['args'][1].get('s') or '').strip('"\'') == DIRECTIVE]
     if len(tests) == 1 and lit_ok:
         bi, t = tests[0]
-        subj = v.describe_operand(t['args'][0])
-        kinds_guard = [vals for atom, vals, sw in v.guards(bi)]
+        subj = v_t.describe_operand(t['args'][0])
         r.ok(dict(cons, subject=subj), 'one test: str::contains(comment text, "%s")' % DIRECTIVE)
     else:
         what = [((callee_path(t) or '').rsplit('::', 1)[-1], t['args'][1].get('s')) for _, t in tests] or \
